@@ -28,7 +28,7 @@ def present (S : List (Option Bytes)) : Nat := S.countP Option.isSome
 The harness checks all of them on the real library for every subset of small `(k, p)`. -/
 structure RSLaws (rs : RS) (k p : Nat) : Prop where
   parity_length : ∀ d, d.length = k → (rs.parity k p d).length = p
-  parity_size : ∀ d s, (∀ x ∈ d, x.length = s) → ∀ x ∈ rs.parity k p d, x.length = s
+  parity_size : ∀ d s, d.length = k → (∀ x ∈ d, x.length = s) → ∀ x ∈ rs.parity k p d, x.length = s
   recover_complete : ∀ d S s, d.length = k → 0 < s → (∀ x ∈ d, x.length = s) →
     SubOf S (d ++ rs.parity k p d) → k ≤ present S →
     rs.recover k p S = some (d ++ rs.parity k p d)
@@ -135,7 +135,7 @@ theorem encOf_spec (rs : RS) (msg : Bytes) (k p : Nat) (hl : RSLaws rs k p) (hin
     simp only [encOf, List.mem_append] at hx
     cases hx with
     | inl e => exact h2 x e
-    | inr e => exact hl.parity_size _ _ h2 x e
+    | inr e => exact hl.parity_size _ _ h1 h2 x e
   · simp [encOf, h3]
 
 /-! ### selecting units -/
